@@ -404,7 +404,7 @@ func runC14(c *Ctx) int {
 	var rmu sync.Mutex
 	c.Parallel(nchild, func(i int) {
 		logp := filepath.Join(c.Tmp, fmt.Sprintf("race-c14-%d", i))
-		a := c14Args{Seed: c.Seed*311 + int64(i), Rounds: c.Pick(2, 25), Backups: c.Pick(14, 25), Dir: c.Tmp,
+		a := c14Args{Seed: c.Seed*311 + int64(i), Rounds: c.Pick(2, 12), Backups: c.Pick(14, 25), Dir: c.Tmp,
 			Opts: gen.OpenOpts{PageSize: []int{4096, 1024}[i%2], Freelist: backends[(i/2)%2], NoFreelistSync: (i/4)%2 == 1}}
 		res := c.RunChild("c14", a, 30*time.Minute, "GORACE=halt_on_error=0 log_path="+logp)
 		for _, l := range res.Lines {
